@@ -23,6 +23,7 @@ CONSTANTS Sizes,       \* file sizes explored
           RPrefixes,   \* generator: token names the value may start with
           BodyToks,    \* generator: token names after the prefix
           BodyLen,     \* generator: max number of body tokens
+          ImsFmts,     \* generator: spellings of the If-Modified-Since date, subset of Fmts
           CondRanges,  \* generator: names from CondMenu, combined with all validators
           MaxReq
 
@@ -84,6 +85,10 @@ RangeOutcome(c, hasRange, value) ==
        ELSE LET e == IF p.kind = "from" \/ p.b >= sz THEN sz - 1 ELSE p.b
             IN IF p.a = 0 /\ e = sz - 1 THEN <<Full(c), Part(c, 0, sz - 1)>> ELSE <<Part(c, p.a, e)>>
 
+(* The If-Modified-Since instant may be spelled in any of the three HTTP-date formats or without a
+   zone; the spelling (fmt) never matters:  imf "Sun, 09 Sep 2001 01:46:40 GMT", rfc850
+   "Sunday, 09-Sep-01 01:46:40 GMT", asctime "Sun Sep  9 01:46:40 2001", nozone "... -0000" *)
+Fmts == {"imf", "rfc850", "asctime", "nozone"}
 (* validators are abstract: inm in {"none","match","differ","star","weak","list","listdiffer"},
    ims in {"none","before","equal","after","garbage"}; If-None-Match takes precedence *)
 Cond304(inm, ims) ==
@@ -125,12 +130,12 @@ InitWith(c) ==
 InitState == \E s \in Sizes : InitWith([size |-> s, k |-> 3])
 
 (* one request through HTTP; value must be transportable in a latin-1 header *)
-Request(m, hasRange, value, inm, ims) ==
+Request(m, hasRange, value, inm, ims, fmt) ==
     /\ n < MaxReq
-    /\ Latin1(value)
+    /\ Latin1(value) /\ fmt \in Fmts
     /\ n' = n + 1
     /\ UNCHANGED <<cfg, lead>>
-    /\ step' = Obs("request", <<m, hasRange, value, inm, ims>>, Allowed(cfg, m, hasRange, value, inm, ims))
+    /\ step' = Obs("request", <<m, hasRange, value, inm, ims, fmt>>, Allowed(cfg, m, hasRange, value, inm, ims))
 
 (* _parse_request_range driven directly (strings that cannot travel in a header): is the header ignored? *)
 Parse(value) ==
@@ -145,11 +150,13 @@ Imss == {"none", "before", "equal", "after", "garbage"}
 Next ==
     /\ n < MaxReq
     /\ IF lead = "none"
-         THEN \E m \in Methods, inm \in Inms, ims \in Imss, r \in CondRanges \cup {"norange"} :
-                Request(m, r # "norange", IF r = "norange" THEN <<>> ELSE ValueOf(CondMenu[r]), inm, ims)
+         THEN \E m \in Methods, inm \in Inms, ims \in Imss, r \in CondRanges \cup {"norange"},
+                 fmt \in (ImsFmts \cup {"imf"}) :
+                (ims \in {"none", "garbage"} => fmt = "imf")
+                /\ Request(m, r # "norange", IF r = "norange" THEN <<>> ELSE ValueOf(CondMenu[r]), inm, ims, fmt)
          ELSE \E body \in BoundedSeq(BodyToks, BodyLen) :
                 LET v == ValueOf(<<lead>> \o body) IN
-                IF Latin1(v) THEN \E m \in Methods : Request(m, TRUE, v, "none", "none")
+                IF Latin1(v) THEN \E m \in Methods : Request(m, TRUE, v, "none", "none", "imf")
                 ELSE Parse(v)
 
 Spec == InitState /\ [][Next]_<<vars, step>>
